@@ -152,7 +152,10 @@ def recast(x, dtype):
     return y
 
 
-def root_failures(d, dtype, st=None, deep=True):
+WARM_TAGS = {"fuse", "reshape", "contract", "linalg"}
+
+
+def root_failures(d, dtype, st=None, deep=True, warm_only=False):
     import symmray as sr
 
     fails = []
@@ -167,6 +170,8 @@ def root_failures(d, dtype, st=None, deep=True):
     if not x.blocks:
         return fails, 0  # an array without blocks carries no element type
     for op in ops_for(x, "full"):
+        if warm_only and not (op.tags & WARM_TAGS):
+            continue  # first pass in double precision: only the operations that fill the fuse cache
         r = call_failures(op, x, xref, dtype, fails, st, "depth1")
         if st is not None:
             st.evaluations += 1
@@ -195,7 +200,7 @@ def roots(ctx, sym, ferm):
     out = []
     # n=4: the smallest arrays in which a fused block can have a *hole* (a sub-sector stored for one outer sector
     # and missing for another), i.e. where the strategies have to create zero blocks
-    plans = [(0, "m3", "all", "all"), (1, "core", "all", "all"), (2, "m3", "all", "le1"), (3, "m2", "two", "probe"), (4, "m1", "two", "le1")]
+    plans = [(0, "m3", "all", "all"), (1, "core", "all", "all"), (2, "m3", "all", "le1"), (3, "m2", "two", "probe"), (4, "m1", "two", "probe")]
     for n, menu, charges, sp in plans:
         kw = dict(ferm=True, phases="probe0", label=3) if ferm else {}
         for d in U.arrays(sym, n, menu, "a", charges, sp, **kw):
@@ -232,13 +237,18 @@ def run_group(ctx, group):
         if i % nch != k:
             continue
         # every dtype on the small roots; rotate dtypes over the larger ones (all four over the residue classes)
-        dts = DTYPES if n <= 1 else (DTYPES[(i // nch + ctx.seed) % 4],)
+        # n>=2: the same structure is first run in float64, then in another dtype within the same process, so a cached
+        # fuse plan computed for double precision data is re-used for the other element type (call history)
+        dts = DTYPES if n <= 1 else ("float64", ("float32", "complex64", "complex128")[(i // nch + ctx.seed) % 3])
         if n == 4:
-            dts = (("float32", "complex64")[(i // nch + ctx.seed) % 2],)
+            dts = ("float64", ("float32", "complex64")[(i // nch + ctx.seed) % 2])
+        if n == 3:
+            dts = (("float64", "complex64", "float32", "complex128")[(i // nch + ctx.seed) % 4],)
         if ctx.thorough:
             dts = DTYPES
-        for dt in dts:
-            fails, nt = root_failures(d, dt, st, deep=(ctx.thorough or n <= 2))
+        for di, dt in enumerate(dts):
+            warm = (not ctx.thorough) and n >= 2 and di == 0 and len(dts) > 1
+            fails, nt = root_failures(d, dt, st, deep=((ctx.thorough or n <= 2) and not warm), warm_only=warm)
             st.states += 1
             st.traces += 1
             st.nontrivial += nt
@@ -248,9 +258,12 @@ def run_group(ctx, group):
             st.sample({"root": describe(build(d)), "dtypes": list(dts)})
     if not ctx.thorough:
         st.counters["capped"] += 1
-        st.notes.append("quick: one of the four dtypes per root with n>=2 (rotating over roots and with the seed), depth 2 from n<=2 only")
+        st.notes.append("quick: n=2 and n=4 roots run in float64 and then in one other dtype (rotating) within the same process, n=3 roots in one dtype; depth 2 from n<=2 only")
     return st
 
 
 def replay(ctx, case):
+    # replay with the history the explorer used: the same structure in double precision first
+    if case["dtype"] != "float64" and not (isinstance(case["root"], tuple)):
+        root_failures(case["root"], "float64", warm_only=True)
     return root_failures(case["root"], case["dtype"])[0]
